@@ -1,15 +1,94 @@
-GROUP = dict(crate='quill', file='quill/src/lib.rs', harness_file='enigma.rs', functions=[], trusted=[], tests=[
-    dict(name='stream_write_then_read', props=['C12'], text='draft', bound='draft', timeout=900, tier='quick'),
-    dict(name='stream_write_then_read__orphan_inner', props=['C12'], text='draft', bound='draft', timeout=900, tier='quick'),
-    dict(name='stream_written_text_is_sorted_and_nested', props=['C12'], text='draft', bound='draft', timeout=900, tier='quick'),
-    dict(name='stream_written_text_is_sorted_and_nested__orphan_inner', props=['C12'], text='draft', bound='draft', timeout=900, tier='quick'),
-    dict(name='stream_reads_independent_rendering', props=['C12'], text='draft', bound='draft', timeout=900, tier='quick'),
-    dict(name='dir_roundtrip', props=['C12'], text='draft', bound='draft', timeout=900, tier='quick'),
-    dict(name='dir_roundtrip__orphan_inner', props=['C12'], text='draft', bound='draft', timeout=900, tier='quick'),
-    dict(name='comments_survive', props=['C12'], text='draft', bound='draft', timeout=900, tier='quick'),
-    dict(name='comments_survive__tabs', props=['C12'], text='draft', bound='draft', timeout=900, tier='quick'),
-    dict(name='stream_write_then_read__shared_file_name', props=['C12'], text='draft', bound='draft', timeout=900, tier='quick'),
-    dict(name='dir_roundtrip__shared_file_name', props=['C12'], text='draft', bound='draft', timeout=900, tier='quick'),
-    dict(name='no_panic_on_garbage_lines', props=['C12'], text='draft', bound='draft', timeout=900, tier='quick'),
-    dict(name='canary_must_fail', props=[], canary=True, text='must fail', bound=''),
-])
+"""Enumeration group `enigma`: bounded stand-in checks for the Enigma text format at the level of whole two-namespace mapping sets
+(harness kx/enum/enigma.rs, property C12; the no-panic clause also C16).
+
+GROUP has exactly the shape of an entry of kx.groups.ENUM_GROUPS (picked up by kx.groups._load_group_files as ENUM_GROUPS['enigma']).
+
+Install: the harness uses `crate::tree::mappings::*`, `crate::tree::names::*`, `crate::enigma_file::*`, `crate::enigma_dir::*` and the
+dependencies `duke`, `java_string`, `anyhow` of quill, so it is appended as `#[cfg(test)] mod verif_enum_enigma` to quill/src/lib.rs
+(crate quill, cargo target --lib).
+
+Universes (all counts are checked by the `cases=` numbers the tests print):
+
+WIDE, 5184 sets = every set over the 7 class keys A, A$I, A$I$K, A$Z, p/B, p/B$M, d/e/f/G where each key is absent or has one of its
+   variants (4*4*3*3*4*3*3): A {no target, X rich, q/X}; A$I {no target rich, J, J rich}; A$I$K {no target, L rich}; A$Z {no target, W};
+   p/B {no target, q/r/Y rich, Y}; p/B$M {no target rich, N}; d/e/f/G {no target, G}.  Target names of nested classes follow the nesting
+   (prefix = target name of the outer class, its source name where it has none; for an outer class that is absent from the set the
+   target name it has elsewhere in the universe).  `rich` = multi-line comment with a leading space, a blank line, `#` characters and a
+   trailing space; 4 fields (two of one name, one with non-ASCII names, one with a comment containing `#`), 4 methods (overloads,
+   `<init>` named `<init>`, `<clinit>`), 3 parameters (one with a multi-line comment).
+   2730 of these sets have no orphan (every nested class has its outer class in the set), 2454 have at least one orphan inner class.
+DEEP, 672 sets = 7 comments {none, "", "c", the multi-line comment, "#", " ", line break} x 4 field lists (0, 1, 2 and 5 fields; same
+   name / different descriptor, without target name, sort order by source name, target name, descriptor) x 6 method lists (none; one;
+   `<init>` named `<init>` with a parameter; `<init>` without target with commented parameters; 4 methods with overloads and parameter
+   indices 10, 2, 0; one method with object descriptors and comments on everything) on one class placed as: top-level A without target
+   name, top-level A -> X, A$I without / with target name nested in a bare A -> X.
+Every set is built twice through the tree API of quill (entries inserted in key order and in reverse order).
+"""
+
+_WIDE_OK = ('the 2730 sets of WIDE without orphan inner classes (WIDE = all 5184 sets over the class keys A, A$I, A$I$K, A$Z, p/B, p/B$M, d/e/f/G, each absent or in one of 2-3 variants: '
+            'with / without target name, bare / rich content; rich = multi-line comment with leading space, blank line, # and trailing space, 4 fields, 4 methods incl. <init> / <clinit> / overloads, 3 parameters)')
+_WIDE_ORPHAN = ('the 2454 sets of WIDE (see stream_write_then_read) in which at least one nested class (A$I, A$I$K, A$Z, p/B$M) has no outer class in the set')
+_DEEP = ('the 672 sets of DEEP (7 comments {none, empty, c, multi-line, #, one space, line break} x 4 field lists x 6 method lists on one class that is top-level without target name / '
+         'top-level with target name / nested without / nested with target name)')
+
+GROUP = dict(
+    crate='quill', file='quill/src/lib.rs', harness_file='enigma.rs',
+    functions=['quill/src/enigma_file.rs::read_into', 'quill/src/enigma_file.rs::write_all', 'quill/src/enigma_file.rs::write_one', 'enigma_file::write_all_for_each',
+               'enigma_file::figure_out_files', 'enigma_file::write_one_tree_starting_at', 'enigma_file::write_class', 'enigma_file::insert_comment', 'enigma_file::is_modifier',
+               'enigma_file::enigma_line::EnigmaLine::new', 'quill/src/enigma_dir.rs::read', 'quill/src/enigma_dir.rs::read_', 'quill/src/enigma_dir.rs::write',
+               'quill/src/lines.rs::WithMoreIdentIter::on_every_line / next_level / next'],
+    trusted=['Enigma harness (kx/enum/enigma.rs): own model of a two-namespace mapping set as far as the format can express it (classes under their full source name, parameters without '
+             'source name), own renderer of the format (canonical = the documented sorted output; noisy = other order, tabs as separators, ACC: modifiers, # remarks, blank lines), own strict '
+             'parser; renderer and parser are cross-checked on every set (parse(render(M)) == M).  The quill tree is built through the tree API (add_class / add_field / add_method / add_parameter), '
+             'never through a reader; the extractor quill tree -> model walks the pub fields and checks every map key against the entry stored under it.  Provisos of C12 built into the universe: '
+             'target names of nested classes follow the nesting; `<init>` named `<init>` equals unnamed; every parameter has a target name and no source name.  Directory tests use '
+             'std::env::temp_dir().'],
+    tests=[
+        dict(name='stream_write_then_read', props=['C12'], tier='quick', timeout=600,
+             text='For every set, write_all of the tree built in key order and in reverse order gives the same text, read_into of that text yields exactly the set (same classes under the same source keys, '
+                  'target names, fields, methods, parameters, comments line for line; <init> named <init> comes back unnamed), and write(read(write(M))) == write(M).',
+             bound=_WIDE_OK + ' + ' + _DEEP + '; 3402 cases'),
+        dict(name='stream_write_then_read__orphan_inner', props=['C12'], tier='quick', timeout=600,
+             text='The same for sets that contain an inner class whose outer class is absent from the set: it is written and read back under its full source key.',
+             bound=_WIDE_ORPHAN + '; 2454 cases'),
+        dict(name='stream_written_text_is_sorted_and_nested', props=['C12'], tier='quick', timeout=600,
+             text='The text write_all produces is well-formed Enigma for an independent strict parser, which reads it back to the set; it is byte for byte the canonical rendering (files ordered by file name, '
+                  'comment, fields, methods ordered by source name, target name, descriptor, parameters by index, nested classes by source name, nesting in the text = source-name nesting); '
+                  'write_one(file name) is exactly the part of the stream of that file and refuses names of classes that are nested in a class of the set.',
+             bound=_WIDE_OK + ' + ' + _DEEP + '; 3402 cases'),
+        dict(name='stream_written_text_is_sorted_and_nested__orphan_inner', props=['C12'], tier='quick', timeout=600,
+             text='The same for sets with orphan inner classes: an orphan starts a file of its own and is written with its full source and target name.',
+             bound=_WIDE_ORPHAN + '; 2454 cases'),
+        dict(name='stream_reads_independent_rendering', props=['C12'], tier='quick', timeout=600,
+             text='read_into reads the rendering of the harness into exactly the set, both the canonical text and the same content in another order and spelling (nested classes first, methods before fields, '
+                  'reversed, comments after the members, tab separators, ACC: modifiers, trailing # remarks, blank and remark-only lines, <init> spelled out).',
+             bound='all 5184 sets of WIDE (orphans included: their text carries the full names) + ' + _DEEP + ', each in 2 renderings; 5856 cases'),
+        dict(name='dir_roundtrip', props=['C12'], tier='quick', timeout=900,
+             text='enigma_dir::write creates exactly the predicted files (<target name, or source name>.mapping, packages as directories) with the canonical text, independent of the insertion order; every '
+                  'class is in exactly one file, the file of its top-level class; enigma_dir::read of the directory yields the set; read of the same files created by the harness in sorted and in reverse '
+                  'order (plus a foreign file) yields the set with the same class order.',
+             bound=_WIDE_OK + '; 4 directories per case; 2730 cases'),
+        dict(name='dir_roundtrip__orphan_inner', props=['C12'], tier='quick', timeout=900,
+             text='The same for sets with orphan inner classes (the orphan gets its own file and keeps its full source key).',
+             bound=_WIDE_ORPHAN + '; 2454 cases'),
+        dict(name='comments_survive', props=['C12'], tier='quick', timeout=600,
+             text='A comment put on every kind of entry (class, field, method, parameter, and the same four of a nested class: COMMENT lines at depth 1..5) survives write+read (stream and directory), '
+                  'is written canonically and is read from both renderings.',
+             bound='all 341 comments of length <= 4 over {a, space, #, line break} on the set {A -> X, A$I -> X$J}, each with one field, one method, one parameter; 4 checks per comment; 341 cases'),
+        dict(name='comments_survive__tabs', props=['C12'], tier='quick', timeout=600,
+             text='The same for comments that contain a tab character.',
+             bound='all 25 comments of length <= 3 over {a, tab, line break} that contain a tab, on the same set; 25 cases'),
+        dict(name='stream_write_then_read__shared_file_name', props=['C12'], tier='quick', timeout=600,
+             text='Two top-level classes whose file names coincide (target name of one = target or source name of the other) are both written and read back.',
+             bound='{A (no target), p/B -> A}, {A -> X, p/B -> X}, {A -> p/B, p/B (no target)}, {A -> q/X, A$I -> q/X$J, p/B -> q/X}, each with bare and with rich classes; 8 cases'),
+        dict(name='dir_roundtrip__shared_file_name', props=['C12'], tier='quick', timeout=600,
+             text='The same through enigma_dir::write / read: every class is found in exactly one file and the set is read back.',
+             bound='the same 8 sets; 8 cases'),
+        dict(name='no_panic_on_garbage_lines', props=['C16', 'C12'], tier='quick', timeout=900,
+             text='read_into answers Ok or Err on malformed lines without panic and without hanging (20 s watchdog); whatever it accepts is a consistent tree (every map key agrees with its entry) '
+                  'that write_all handles without panic.',
+             bound='5 contexts (empty; CLASS; CLASS+FIELD; CLASS+METHOD; CLASS+METHOD+ARG) x 6 indentations (0..4 tabs, one space) x 8 first words {CLASS, FIELD, METHOD, ARG, COMMENT, COMMENTX, x, empty} '
+                   'x all 2801 argument lists of length <= 4 over {A, a/, (I)V, I, 0, -1, ACC:P} = 672240 documents; plus 5 x 6 x 24 raw lines (invalid UTF-8, multi-byte characters after the indentation, '
+                   'control characters, huge / signed / hex indices, # in odd places, `$` and `/` names, NUL) x 4 endings (LF, none, CR LF, LF + COMMENT line) = 2880; 675120 cases'),
+        dict(name='canary_must_fail', props=[], canary=True, text='must fail', bound=''),
+    ])
